@@ -18,12 +18,12 @@ def Kind.apiCalls (k : Kind) : List String :=
   | .burn .code => [k.storeFn ++ ".Delete:defer", k.storeFn ++ ".GetAndDelete"]
   | .burn .vpNonce => [k.storeFn ++ ".Delete", k.storeFn ++ ".GetAndDelete"]
   | .burn .reqObj | .burn .redirect => [k.storeFn ++ ".GetAndDelete"]
-  | .mark _ => [k.storeFn ++ ".Get", k.storeFn ++ ".Put"]
+  | .mark _ => [k.storeFn ++ ".PutIfAbsent"]
 
 /-- how a mark-as-used consumer uses its store, read off its call list -/
 def markShapeOf (store : String) (calls : List String) : Option MarkShape :=
   if calls = [store ++ ".Get", store ++ ".Put"] then some .getThenPut
-  else if calls = [store ++ ".PutIfAbsent"] then some .locked
+  else if calls = [store ++ ".PutIfAbsent"] then some Facts.C05.pifShape
   else none
 
 def todayMarkS2S : MarkShape := (markShapeOf "s2sNonceStore" Facts.C05.callsS2S).get (by decide)
